@@ -211,6 +211,12 @@ type c19obs struct {
 	st   *core.Stats
 	eff  gen.Cfg
 	runs int
+	// GSAP: number of buffered bytes covered by the last suffix sort (the
+	// parser sorts when a block ends behind the sorted range and drops the
+	// suffix array on Shrink/Reset), and whether positions were skipped by
+	// Parse(nil) since then (they are not match sources)
+	saLen   int64
+	skipped bool
 }
 
 func (o *c19obs) Observe(ev *PEvent, ps *PState) (string, string) {
@@ -218,6 +224,20 @@ func (o *c19obs) Observe(ev *PEvent, ps *PState) (string, string) {
 		return "panic", fmtPanic(ev.Panic)
 	}
 	o.cr.observe(ev, ps)
+	switch ev.Op.K {
+	case "shrink":
+		if ev.Delta > 0 {
+			o.saLen, o.skipped = 0, false
+		}
+	case "reset":
+		o.saLen, o.skipped = 0, false
+	case "parse":
+		if ev.Nil && ev.Err == nil {
+			o.skipped = true
+		} else if n := min64(int64(ps.BlockSize), ev.PreFed-ev.PreW); !ev.Nil && n > 0 && ev.PreW-ev.PreOff+n > o.saLen {
+			o.saLen, o.skipped = ev.PreFed-ev.PreOff, false
+		}
+	}
 	if !isParseOK(ev) || ev.NewDec == nil {
 		return "", ""
 	}
@@ -327,13 +347,29 @@ func (o *c19obs) Observe(ev *PEvent, ps *PState) (string, string) {
 						for q := ev.PreOff; q < rs; q++ {
 							if fed[q] == c {
 								k++
-								if k >= o.eff.MinMatchLen && ev.PreW-q > int64(ps.WindowSize) {
+								if k >= o.eff.MinMatchLen && ev.PreW+ev.N-1-q >= int64(ps.WindowSize) {
 									class = "gsap-run-block-shadowed-by-earlier-run-beyond-window"
 									break
 								}
 							} else {
 								k = 0
 							}
+						}
+					}
+					if class == "gsap-run-block-shadowed-by-earlier-run-beyond-window" && !o.skipped && o.saLen > 0 && o.saLen <= 3000 &&
+						ev.PreOff+o.saLen <= int64(len(fed)) && ev.PreW+ev.N <= ev.PreOff+o.saLen {
+						// the recorded finding is the documented method itself
+						// (only the two nearest suffix array neighbours are
+						// looked at, both lie in the earlier run beyond the
+						// window). If that method, executed by the reference,
+						// compresses this block, the literals have another
+						// cause and are not the recorded finding.
+						t := fed[ev.PreOff : ev.PreOff+o.saLen]
+						if ref.TwoNeighbourLiterals(t, int(ev.PreW-ev.PreOff), int(ev.PreW-ev.PreOff+ev.N), o.eff.MinMatchLen, ps.WindowSize) <= bound {
+							class = "run-not-compressed"
+							o.st.Inc("gsap_run_literals_not_explained_by_the_recorded_finding")
+						} else {
+							o.st.Inc("gsap_run_literals_explained_by_the_recorded_finding")
 						}
 					}
 					return class, fmt.Sprintf("block of %d bytes %#x at stream position %d carries %d literal bytes (allowed %d); block=%+v", ev.N, c, ev.PreW, len(ev.Blk.Literals), bound, *ev.Blk)
